@@ -134,7 +134,22 @@ func (g *gen) content(depth int, names *[]string) []sx.Stmt {
 			}
 			out = append(out, sx.FP(sx.U(name), lit("P "+name), body))
 		case 5:
-			if len(*names) > 1 {
+			if len(*names) > 1 && g.r.Intn(3) == 0 {
+				// parallel connections between the same endpoints, then indexed references to them
+				other := (*names)[g.r.Intn(len(*names))]
+				ar := g.pick([]string{"->", "--", "<-"})
+				k := 2 + g.r.Intn(2)
+				for e := 0; e < k; e++ {
+					out = append(out, sx.E(sx.U(name), ar, sx.U(other), sx.VS(lit(fmt.Sprintf("p%d %s", e, name)))))
+				}
+				out = append(out, sx.Stmt{T: "e", Src: sx.U(name), Ar: ar, Dst: sx.U(other), Ix: fmt.Sprint(g.r.Intn(k)),
+					EK: sx.U("style", "stroke"), V: sx.VS(lit(g.pick(colours)))})
+				if g.r.Intn(2) == 0 {
+					out = append(out, sx.Stmt{T: "e", Src: sx.U(name), Ar: ar, Dst: sx.U(other), Ix: "*",
+						EK: sx.U("style", "opacity"), V: sx.VS(lit("0.7"))})
+				}
+				g.c.Count("content:parallel-connections")
+			} else if len(*names) > 1 {
 				other := (*names)[g.r.Intn(len(*names))]
 				var v sx.Val
 				if g.r.Intn(2) == 0 {
